@@ -227,8 +227,12 @@ func main() {
 			if lp := atomic.LoadInt64(&lastProgress); lp > st {
 				st = lp // the run is slow but alive: the watchdog measures time without progress
 			}
+			lim := limit
+			if overBudget() && lim > 120 {
+				lim = 120 // the batch is over: do not sit on a hung run for minutes
+			}
 			storm, _ := stormReason.Load().(string)
-			if (st != 0 && time.Now().Unix()-st > limit) || storm != "" {
+			if (st != 0 && time.Now().Unix()-st > lim) || storm != "" {
 				buf := make([]byte, 1<<20)
 				n := runtime.Stack(buf, true)
 				stack := string(buf[:n])
@@ -237,7 +241,7 @@ func main() {
 					site = panicSite(stack[i:])
 				}
 				rep := RunReport{Driver: drv, Run: int(atomic.LoadInt64(&curRun)), Seed: curSeed, Outcome: "violation", Sig: "hang", Nontrivial: true}
-				v := Violation{Property: flProp, Class: "hang", Site: site, Detail: fmt.Sprintf("run did not finish within %d s; main goroutine in %s", limit, site)}
+				v := Violation{Property: flProp, Class: "hang", Site: site, Detail: fmt.Sprintf("run did not finish within %d s; main goroutine in %s", lim, site)}
 				if storm != "" {
 					v.Detail = storm
 				}
